@@ -31,7 +31,7 @@ fn allowed(f: &Func, contracts: &serde_json::Value) -> Result<(), String> {
     }
     match f.trait_.as_deref() {
         None => Ok(()),
-        Some(t) if STD_OPS.contains(&t) || INHERENT_TRAITS.contains(&t) || t == "Clone" || t == "ComplexField" || t == "RealField" => Ok(()),
+        Some(t) if STD_OPS.contains(&t) || INHERENT_TRAITS.contains(&t) || t == "Clone" || t == "ComplexField" || t == "RealField" || t == "PartialEq" || t == "PartialOrd" => Ok(()),
         Some(t) => Err(format!("trait {t} not in this unit")),
     }
 }
@@ -183,7 +183,7 @@ fn ensures_for(db: &Db, mname: &str, k: &Kind, root: &str, prefix: &str, ps: &[P
 
 fn table_requires(contracts: &serde_json::Value, f: &Func, second_kind: &str, mutself: bool, p1: &str) -> Vec<String> {
     let mut v = vec![];
-    let key = format!("{}{}", f.prefix, f.name);
+    let key = if f.ty == "F64" { format!("F64::{}", f.name) } else { format!("{}{}", f.prefix, f.name) };
     let entry = &contracts["requires"][key.as_str()];
     if entry.is_null() {
         return v;
@@ -301,11 +301,14 @@ pub fn emit_unit(db: &Db, contracts: &serde_json::Value, unit: &str) -> UnitOut 
     let mut skipped = vec![];
     let mut rule_counts: BTreeMap<String, usize> = BTreeMap::new();
     let vec_unit = is_vec_type(db, unit) && unit != "Derivative";
+    let float_unit = unit == "F64";
 
     // struct definition (R1: PhantomData field and generics dropped)
     exec.push_str(&format!("// ---- unit {unit}: extracted from expanded source line {} ----\n", ti.line));
     if unit == "Derivative" {
         exec.push_str("pub struct Derivative(pub Option<Mx>);\n");
+    } else if float_unit {
+        exec.push_str("// the model float type Fp is part of the prelude\n");
     } else {
         let fields = ti
             .parts
@@ -418,8 +421,9 @@ pub fn emit_unit(db: &Db, contracts: &serde_json::Value, unit: &str) -> UnitOut 
             }
         }
         let mut rw = Rw::new(ints);
-        if !f.prefix.is_empty() {
-            for g in db.funcs.iter().filter(|g| g.ty == f.ty && !g.prefix.is_empty()) {
+        rw.float_unit = float_unit;
+        if f.prefix == "cf_" || f.prefix == "rf_" {
+            for g in db.funcs.iter().filter(|g| g.ty == f.ty && (g.prefix == "cf_" || g.prefix == "rf_")) {
                 rw.field_methods.insert(g.name.clone(), format!("{}{}", g.prefix, g.name));
             }
             for a in &f.item.sig.inputs {
@@ -459,7 +463,8 @@ pub fn emit_unit(db: &Db, contracts: &serde_json::Value, unit: &str) -> UnitOut 
             continue;
         }
         let mut body = block.to_token_stream().to_string();
-        let hint = contracts["hints"][format!("{}{}", f.prefix, f.name).as_str()].as_str().map(|h| format!("proof {{ {h} }} ")).unwrap_or_default();
+        let hkey = format!("{}::{}{}", f.ty, f.prefix, f.name);
+        let hint = contracts["hints"][hkey.as_str()].as_str().or(if float_unit { None } else { contracts["hints"][format!("{}{}", f.prefix, f.name).as_str()].as_str() }).map(|h| format!("proof {{ {h} }} ")).unwrap_or_default();
         if mut_self_by_value {
             body = format!("{{ {hint}let mut self_ = self; {} }}", &body[1..body.len() - 1]);
         } else if !hint.is_empty() {
@@ -493,7 +498,7 @@ pub fn emit_unit(db: &Db, contracts: &serde_json::Value, unit: &str) -> UnitOut 
             }
         }
         let ret_ty = match (&f.item.sig.output, m_opt) {
-            (_, Some(m)) if !manual_mode => kind_to_type(&m.ret),
+            (_, Some(m)) if !manual_mode => kind_to_type(&m.ret).replace("Sc", if float_unit { "Fp" } else { "Sc" }),
             (syn::ReturnType::Default, _) => "()".to_string(),
             (syn::ReturnType::Type(_, t), _) => {
                 let s = type_to_string(t, &mut rw);
@@ -609,15 +614,16 @@ pub fn emit_unit(db: &Db, contracts: &serde_json::Value, unit: &str) -> UnitOut 
         } else {
             let req_txt = if reqs.is_empty() { String::new() } else { format!(" requires {}", reqs.join(", ")) };
             let sigtxt = format!("pub fn {fn_name}({}){ret_decl}{req_txt}{ens_txt}", sig_params.join(", "));
-            exec.push_str(&format!("impl {} {{ {sigtxt}\n{body} }}\n", f.ty));
-            iface.push_str(&format!("impl {} {{ #[verifier::external_body] {sigtxt}\n{stub} }}\n", f.ty));
+            let tyname = if float_unit { "Fp".to_string() } else { f.ty.clone() };
+            exec.push_str(&format!("impl {tyname} {{ {sigtxt}\n{body} }}\n"));
+            iface.push_str(&format!("impl {tyname} {{ #[verifier::external_body] {sigtxt}\n{stub} }}\n"));
         }
         let end_line = exec.lines().count();
         if let (Some(m), false) = (m_opt, manual_mode) {
             mirror.push_str(&emit_mirror(f, m));
         }
         // contract variants: the same verbatim body checked under a different (wider / special-point) domain
-        if !manual_mode && !f.is_std_op() && f.trait_.as_deref() != Some("Clone") {
+        if !manual_mode && !float_unit && !f.is_std_op() && f.trait_.as_deref() != Some("Clone") {
             if let Some(vars) = contracts["variants"][format!("{}{}", f.prefix, f.name).as_str()].as_array() {
                 for v in vars {
                     let suffix = v["suffix"].as_str().unwrap_or("v");
